@@ -41,7 +41,12 @@ func (obj Symbol) Readably(b []byte, p *Printer) []byte {
 	}
 	if needsPipes(name) {
 		b = append(b, '|')
-		b = append(b, p.caseName(name)...)
+		for _, c := range []byte(p.caseName(name)) {
+			if c == '\\' {
+				b = append(b, '\\') // the reader takes a backslash as the start of an escape
+			}
+			b = append(b, c)
+		}
 		return append(b, '|')
 	}
 	return append(b, p.caseName(name)...)
